@@ -46,6 +46,8 @@ QC = L + "qubit/converter/qiskit_convert.py"
 MAP = L + "tomography/mappings.py"
 TUT = L + "tomography/utils.py"
 LI = L + "tomography/process_tomography_li.py"
+MLEF = L + "tomography/process_tomography_mle.py"
+STF = L + "tomography/state_tomography.py"
 SVG = L + "sdk/visualisation/draw_circuit_svg.py"
 MPL = L + "sdk/visualisation/draw_circuit_mpl.py"
 DISP = L + "sdk/visualisation/display.py"
@@ -181,9 +183,21 @@ VARIANTS = [
     # ---------------- C15 / C16
     ("B-K11", "B", "C15", MAP, "_y_measure.add(qubit.S())", "_y_measure.add(qubit.Sadj())"),
     ("B-K14", "B", "C15", TUT, "            elif state[2 * j : 2 * j + 2] == State([0, 1]):\n                multiplier *= -1", "            elif state[2 * j : 2 * j + 2] == State([0, 1]):\n                multiplier *= 1"),
+    ("B-K21", "B", "C15", STF, "self._rho = _calculate_density_matrix(results_dict, self.n_qubits)", "self._rho = _calculate_density_matrix(results_dict, self.n_qubits).T"),
+    ("B-K22", "B", "C15", STF, "self._rho = _calculate_density_matrix(results_dict, self.n_qubits)", "rho = _calculate_density_matrix(results_dict, self.n_qubits)\n        self._rho = (rho + rho.T) / 2"),
+    ("B-K23", "B", "C15", TUT, "mat = np.kron(mat, PAULI_MAPPING[g])", "mat = np.kron(mat, PAULI_MAPPING[g].T)"),
+    ("T-K21", "T", "C15", STF, "self._rho = _calculate_density_matrix(results_dict, self.n_qubits)", "rho = _calculate_density_matrix(results_dict, self.n_qubits)\n        self._rho = (rho + rho.conj().T) / 2"),
     ("B-K12", "B", "C16", MAP, "    \"Y+\": (State([1, 0]), r_transform),\n    \"Y-\": (State([0, 1]), r_transform),", "    \"Y+\": (State([0, 1]), r_transform),\n    \"Y-\": (State([1, 0]), r_transform),"),
     ("B-K13", "B", "C16", MAP, "    \"Y+\": np.array([[1, -1j], [1j, 1]]) / 2,\n    \"Y-\": np.array([[1, 1j], [-1j, 1]]) / 2,", "    \"Y+\": np.array([[1, 1j], [-1j, 1]]) / 2,\n    \"Y-\": np.array([[1, -1j], [1j, 1]]) / 2,"),
     ("B-K15", "B", "C16", LI, "np.kron(np.array(full_rhos[in_s]).conj(), full_paulis[meas])", "np.kron(full_paulis[meas], np.array(full_rhos[in_s]).conj())"),
+    ("B-K16", "B", "C16", MLEF, "return (self._a_matrix @ _vec(choi)).clip(1e-8)", "return (self._a_matrix @ _vec(choi.T)).clip(1e-8)"),
+    ("B-K17", "B", "C16", MLEF, "return -_unvec(np.conj(self._a_matrix.T) @ (n_vec / self._p_vec(choi)))", "return -_unvec(self._a_matrix.T @ (n_vec / self._p_vec(choi)))"),
+    ("B-K18", "B", "C16", LI, "                np.kron(np.array(full_rhos[in_s]).conj(), full_paulis[meas])\n            ).conj()", "                np.kron(np.array(full_rhos[in_s]).conj(), full_paulis[meas])\n            )"),
+    ("B-K19", "B", "C16", LI, "                np.kron(np.array(full_rhos[in_s]).conj(), full_paulis[meas])\n            ).conj()", "                np.kron(np.array(full_rhos[in_s]).T, full_paulis[meas])\n            )"),
+    ("B-K20", "B", "C16", LI, "self._choi = _unvec(choi)", "self._choi = _unvec(choi).T"),
+    ("T-K16", "T", "C16", LI, "                np.kron(np.array(full_rhos[in_s]).conj(), full_paulis[meas])\n            ).conj()", "                np.kron(np.array(full_rhos[in_s]), np.conj(full_paulis[meas]))\n            )"),
+    ("T-K17", "T", "C16", MLEF, "np.kron(self._all_rhos[in_s], ((id_mat + obs) / 2).T)", "np.kron(self._all_rhos[in_s], (id_mat + obs.T) / 2)"),
+    ("T-K18", "T", "C16", LI, "self._choi = _unvec(choi)", "choi_matrix = _unvec(choi)\n        self._choi = choi_matrix"),
     # ---------------- C17
     ("B-17a", "B", "C17", SIMR, "        if self.result_type == \"probability_amplitude\":\n            raise ValueError(\n                \"Threshold mapping cannot be applied to probability \"\n                \"amplitudes.\"\n            )\n", ""),
     ("B-17b", "B", "C17", SIMR, "                    array[i, j] = mapped_result[in_state][out_state]", "                    array[j, i] = mapped_result[in_state][out_state]"),
